@@ -286,7 +286,7 @@ distinct = distinct positions / names / strings; oracle = reference successor on
     obs.sample(json!({"kind": "position", "name": "20240813-123330-055-E", "volume": 999, "expected_successor": "volume 1"}));
 
     // ---- archive names -----------------------------------------------------------------------------------
-    let n = ctx.tier.pick(20_000, 3_000_000);
+    let n = ctx.tier.pick(100_000, 3_000_000);
     for i in 0..n {
         let y = rng.range(1991, 2100) as i64;
         let mo = rng.range(1, 12) as u32;
@@ -344,7 +344,7 @@ distinct = distinct positions / names / strings; oracle = reference successor on
     }
 
     // ---- totality on arbitrary strings ------------------------------------------------------------------
-    let n = ctx.tier.pick(120_000, 12_000_000);
+    let n = ctx.tier.pick(600_000, 12_000_000);
     for i in 0..n {
         let s = if i % 3 == 0 { near_valid(&mut rng) } else { unicode_string(&mut rng) };
         totality(obs, &s, mix(163, crate::rng::fnv_str(&s)));
